@@ -23,7 +23,7 @@ for m in cat:
         shutil.copytree("/repo/pyanalyze", os.path.join(scratch, "pyanalyze"), ignore=shutil.ignore_patterns("__pycache__"))
         path = os.path.join(scratch, m["file"])
         src = open(path).read()
-        if src.count(m["old"]) != 1:
+        if src.count(m["old"]) != 1 and not (m.get("all") and src.count(m["old"]) > 1):
             print(f"{m['id']}: pattern occurs {src.count(m['old'])}x in {m['file']} — skipped")
             continue
         open(path, "w").write(src.replace(m["old"], m["new"]))
